@@ -371,6 +371,11 @@ func (jit *JITCompiler) InvalidateCache(name string) {
 	jit.unitsMux.Lock()
 	delete(jit.units, name)
 	jit.unitsMux.Unlock()
+
+	// Type specialisations are compiled from the same definition as the unit;
+	// leaving them valid would keep serving the old code through
+	// CompileRouteWithTypes after the route was invalidated.
+	jit.specializationCache.InvalidateSpecializations(name)
 }
 
 // ClearCache removes all compilation units from the cache
@@ -378,6 +383,8 @@ func (jit *JITCompiler) ClearCache() {
 	jit.unitsMux.Lock()
 	jit.units = make(map[string]*CompilationUnit)
 	jit.unitsMux.Unlock()
+
+	jit.specializationCache.InvalidateAll()
 }
 
 // GetProfiler returns the profiler instance
